@@ -2,12 +2,12 @@ SPECIFICATION FairSpec
 CONSTANTS
   Agents = {"a1", "a2"}
   Seeders = {"s1"}
-  Corrupters = {"x1"}
+  Corrupters = {}
   NPs = {2}
-  Maxcs <- MaxcServers
-  Pipes = {1}
+  Maxcs <- MaxcAll
+  Pipes = {1, 2}
   MayLeave = {"a2"}
   Verify = TRUE
-INVARIANT TypeOK
+INVARIANT Inv
 PROPERTY Converges
 CHECK_DEADLOCK FALSE
